@@ -210,6 +210,7 @@ func reifyMap(opts *options, to reflect.Value, from *Config, validators []valida
 	}
 
 	for k, value := range fields {
+		verifKeyOrder("reifyMap", k)
 		opts.activeFields = newFieldSet(parentFields)
 		key := reflect.ValueOf(k)
 
